@@ -219,13 +219,13 @@ def run(ctx):
         ctx.check(len(infix_ins) >= 1 and len(elem_ins) >= 1, "R17.3", f, "stream-receives-elements-and-infix", "insertions into the result stream: %s" % [x[3] for x in ins], f)
         # what is the current element's text? a local holding the rendering of *it, or *it itself
         for (b, i, e, what) in elem_ins:
-            okw = what in ("(*it)", "text") or re.fullmatch(r"\w+", what) is not None
+            okw = what in ("(*it)", "text") or re.fullmatch(r"[\w@]+(\.str\(\))?", what) is not None  # a local, or the element stream's text itself
             ctx.check(okw, "R17.3", f, "element-inserted-directly", "an element reaches the result as %s" % what, (f, e.get("ln")))
         for (b, i, e, what) in infix_ins:
             st = before.get((b, i)) or frozenset()
             shown = [logic.show(g) for g in st]
             # (1) the current element is known non-empty
-            nonempty = any(re.fullmatch(r"!(\w+)\.empty\(\)", s0) for s0 in shown) or any(re.fullmatch(r"!\(%s\.tellp\(\) == \w+\)|!\(\w+ == %s\.tellp\(\)\)" % (out, out), s0) for s0 in shown)
+            nonempty = any(re.fullmatch(r"!([\w@]+)(\.str\(\))?\.empty\(\)", s0) for s0 in shown) or any(re.fullmatch(r"!\(%s\.tellp\(\) == \w+\)|!\(\w+ == %s\.tellp\(\)\)" % (out, out), s0) for s0 in shown)
             # the non-emptiness must be about the current element: the tested local is (re)defined inside the loop body
             ctx.check(nonempty, "R17.3", f, "infix-only-next-to-a-non-empty-element",
                       "the infix is written at line %s without knowing that the current element is non-empty [known: %s]: an empty element produces a doubled or trailing infix" % (e.get("ln"), shown), (f, e.get("ln")))
